@@ -68,3 +68,10 @@ func withConditionalHeaders(req *http.Request, storedHdr http.Header) *http.Requ
 	}
 	return req2
 }
+
+// sentValidatorsOf reports whether the validators on req are the ones [withConditionalHeaders]
+// takes from storedHdr, i.e. whether a 304 to req selects the response with that header.
+func sentValidatorsOf(req *http.Request, storedHdr http.Header) bool {
+	return req.Header.Get("If-None-Match") == storedHdr.Get("ETag") &&
+		req.Header.Get("If-Modified-Since") == storedHdr.Get("Last-Modified")
+}
